@@ -7,3 +7,7 @@ pub use crate::poly_mod::factorize_mod_p::factorize_mod_p;
 pub use crate::poly_mod::hensel::lift_factorization;
 pub use crate::poly_mod::linear::find_linear_factors;
 pub use crate::poly_mod::prim::*;
+#[cfg(feature = "verif-hooks")]
+pub use crate::poly_mod::factorize_mod_p::verif as factorize_mod_p_verif;
+#[cfg(feature = "verif-hooks")]
+pub use crate::poly_mod::hensel::hensel_lift;
